@@ -18,7 +18,7 @@ LEVEL = "exploration"
 RULE = (
     "Hypothesis draws a run over all families/boxes/starts x maxiter 0..40 x maxfun 1..200 x maxls x ftol x gtol (float or callable) x ftarget (None, float or callable, placed above/at/below reachable values) "
     "x stopping callback x gradient scaler x {callable, None, 2-point, 3-point}, followed by a history of 0..3 restarts from the previous result with maxiter below/equal/above the checkpoint's nit, "
-    "maxfun below/above its nfev and a new maxcor. non-trivial = at least two stop criteria were within reach in the same run (e.g. small maxfun and a reachable target, a stopping callback and a small maxiter) "
+    "maxfun below/above its nfev and a new maxcor; dedicated generators: (i) evaluation budgets that bind inside a line search (fresh runs with maxfun 3..16, restarts with maxfun = n0+1..4, hard line-search families), (ii) a target placed exactly on, one ulp below or one ulp above a value the run attains (f(x0) or the value at iterate k of a reference run). non-trivial = at least two stop criteria were within reach in the same run (e.g. small maxfun and a reachable target, a stopping callback and a small maxiter) "
     "or the history contains a restart; distinct = distinct history spec"
 )
 ASSUMPTIONS = [
@@ -177,16 +177,55 @@ def check_restart_budget(spec, stats=None):
 def restart_budget_strategy(draw):
     r = draw(run_spec(families=("rosenbrock", "rosenbrock", "badscale", "sines", "bench", "qp_quartic"), n_max=6, jac_modes=("callable",), maxiter=(1, 10), maxfun=(400, 400),
                       ftols=(0.0,), gtols=(1e-10,), narrow=draw(st.booleans())))
+    if draw(st.booleans()):
+        # a tight budget already in the fresh run: the evaluation budget must bind inside a late line search too
+        r["cfg"]["maxfun"] = draw(st.integers(3, 16))
+        r["cfg"]["maxiter"] = 30
     return {"run": r, "delta": draw(st.sampled_from([1, 1, 2, 2, 3, 4])), "more_iter": draw(st.sampled_from([1, 2, 5, 30])), "maxls2": draw(st.sampled_from([20, 20, 10, 5]))}
+
+
+# ---- dedicated generator: a target that sits exactly on / one ulp around a value the run attains
+def check_target_boundary(spec, stats=None):
+    rspec = spec["run"]
+    prob = build(rspec["problem"])
+    cfg = dict(rspec["cfg"])
+    ref = execute(rspec, prob=prob, callback="passive")
+    if ref.exc is not None:
+        raise ref.exc
+    vals = [float(prob.obj.f(np.clip(prob.x0, prob.lb, prob.ub)))] + [c["snap"]["fun"] for c in ref.cb]
+    k = min(spec["k"], len(vals) - 1)
+    fk = vals[k]
+    if not np.isfinite(fk):
+        raise Discard("non-finite value")
+    ft = {"below": float(np.nextafter(fk, -np.inf)), "at": fk, "above": float(np.nextafter(fk, np.inf))}[spec["where"]]
+    tr = run_min(prob, cfg, ftarget=(("callable", ft) if spec["callable"] else ft), callback="passive")
+    if tr.exc is not None:
+        raise tr.exc
+    judge(tr, prob, cfg, n0=1, nit0=0, gtol=cfg["gtol"], ftarget_val=ft, scale=1.0, cb_schedule_hit=None, mode="callable", tag="target-boundary")
+    # a target that iterate k does not meet (one ulp below its value) must not stop the run at iterate k
+    if spec["where"] == "below" and tr.res["message"] == MSG_TARGET:
+        require(tr.res["fun"] <= ft, "target-message-true[target-boundary]", f"fun={tr.res['fun']!r} > ftarget={ft!r}")
+    if stats is not None:
+        stats.case(spec, True, ["kind=target-boundary", f"where={spec['where']}", f"msg={tr.res['message'][:30]}", f"k={min(k, 3)}"],
+                   sample={"family": rspec["problem"]["obj"]["family"], "k": k, "where": spec["where"], "f_k": fk, "ftarget": ft, "message": tr.res["message"], "fun": tr.res["fun"]})
+
+
+@st.composite
+def target_boundary_strategy(draw):
+    r = draw(run_spec(families=ALL_FAMILIES, n_max=6, jac_modes=("callable",), maxiter=(0, 12), maxfun=(50, 200), ftols=(0.0,), gtols=(1e-10,)))
+    return {"run": r, "k": draw(st.integers(0, 8)), "where": draw(st.sampled_from(["below", "below", "at", "above"])), "callable": draw(st.booleans())}
 
 
 def shard(ctx):
     ctx.hyp("histories", strategy(), check, ctx.pick(6000, 150000))
+    ctx.hyp("target-boundary", target_boundary_strategy(), check_target_boundary, ctx.pick(2500, 40000))
     ctx.hyp("restart-budget", restart_budget_strategy(), check_restart_budget, ctx.pick(4000, 60000))
 
 
 def replay(spec):
-    if "delta" in spec:
+    if "where" in spec:
+        check_target_boundary(spec, None)
+    elif "delta" in spec:
         check_restart_budget(spec, None)
     else:
         check(spec, None)
